@@ -619,7 +619,7 @@ func TestC05(t *testing.T) {
 		rec.add("length_sweep_inputs", swept)
 		rec.flush()
 	}
-	if thorough() && (shard() == "2" || os.Getenv("VERIF_NSHARDS") == "1") && os.Getenv("VERIF_REPLAY") == "" && os.Getenv("VERIF_CORPUS_ONLY") == "" {
+	if (thorough() && shard() == "2" || !thorough() && shard() == "3" || os.Getenv("VERIF_NSHARDS") == "1") && os.Getenv("VERIF_REPLAY") == "" && os.Getenv("VERIF_CORPUS_ONLY") == "" {
 		// the deep tier: every nesting construct some millions of levels deep (inputs of 5-20 MB). The
 		// parse has to come back with a tree or an error; a recursion that outgrows the stack kills the
 		// process, which the driver sees (the case is written out before it is run).
@@ -629,6 +629,11 @@ func TestC05(t *testing.T) {
 			st.K = 5000000
 			if len(st.Unit) > 2 {
 				st.K = 1500000
+			}
+			if strings.Contains(st.Name, "quoted attribute") {
+				st.K = 9000000
+			} else if !thorough() {
+				continue // (the quick tier runs the constructs of the quoted attribute parser only)
 			}
 			c := C05Case{Kind: "deep", From: "deep", Show: st.Name, Stretch: &st}
 			writeCurrent("C05", c)
@@ -665,6 +670,10 @@ var c05Deep = []C05Stretch{
 	{Name: "deep: let blocks", Unit: "{let $v}", Mid: "y", Close: "{/let}", Level: 1},
 	{Name: "deep: loops", Unit: "{foreach $i in $x}", Mid: "y", Close: "{/foreach}", Level: 1},
 	{Name: "deep: param blocks", Unit: "{call .t}{param p}", Mid: "y", Close: "{/param}{/call}", Level: 1},
+	// (the expression of a quoted attribute is parsed apart, by a parser of its own)
+	{Name: "deep: parentheses in a quoted attribute", Pre: "{call .t data=\"", Unit: "(", Mid: "$x", Close: ")", Post: "\" /}", Level: 1},
+	{Name: "deep: list literals in a quoted attribute left open", Pre: "{call .t}{param key=\"k\" value=\"", Unit: "[", Mid: "1", Post: "\" /}{/call}", Level: 1},
+	{Name: "deep: unary minus in the base of a css command (quoted attribute parser)", Pre: "{css ", Unit: "- ", Mid: "$x", Post: ", name}", Level: 1},
 }
 
 // checkDeep parses one deeply nested input: it must come back.
